@@ -69,6 +69,7 @@ class Interp:
         self.fuel = fuel
         self.max_depth = max_depth
         self.trace = []
+        self.cover = None       # {body path: set of executed blocks} when a rule wants to know which paths its scenarios took
 
     # ------------------------------------------------------------ memory
     def read_place(self, fr, p):
@@ -502,6 +503,8 @@ class Interp:
             if self.fuel < 0:
                 raise Undecided("fuel exhausted in %s" % body.path)
             blk = body.blocks[bb]
+            if self.cover is not None:
+                self.cover.setdefault(body.path, set()).add(bb)
             for s in blk["stmts"]:
                 if s["k"] == "Assign":
                     lty = body.locals[s["lhs"]["l"]] if not s["lhs"]["p"] else None
